@@ -76,6 +76,24 @@ def reuse_case(M, n, prefix, which):
             f"{which} after the wavelength buffer was refilled in place follows the law for the new wavelengths (rel 1e-12)": second.shape == (n,) and M.close(second, spec)}
 
 
+def history_case(M, n, first_prefix, prefix, which):
+    """an earlier conversion in the same process with ANOTHER prefix (and the other direction in between) does not influence the conversion under test"""
+    from dreye.api.units.convert import irr2flux, flux2irr
+    f = irr2flux if which == "irr2flux" else flux2irr
+    g = flux2irr if which == "irr2flux" else irr2flux
+    I = M.real("I", (n,))
+    lam = _lam(M, (n,))
+    f(I, lam, prefix=first_prefix)
+    g(I, lam, prefix=first_prefix)
+    out = np.asarray(f(I, lam, prefix=prefix))
+    M.observe("out", out)
+    k_ = _k(prefix) if which == "irr2flux" else fractions.Fraction(10 ** PREFIX[prefix]) / _k("")
+    spec = np.asarray(I) * np.asarray(lam) * _c(M, k_) if which == "irr2flux" else np.asarray(I) * _c(M, k_) / np.asarray(lam)
+    back = np.asarray(g(out, lam, prefix=None, **({"flux_units": f"{prefix or ''}E"} if which == "irr2flux" else {"irr_units": f"{prefix or ''}I"})))
+    return {f"{which}(prefix={prefix!r}) after a conversion with prefix={first_prefix!r} follows the law for its own prefix (rel 1e-12)": out.shape == (n,) and M.close(out, spec),
+            "round trip after the earlier conversions returns the input (rel 1e-12)": back.shape == (n,) and M.close(back, I)}
+
+
 def linear_case(M, n, prefix, which):
     from dreye.api.units.convert import irr2flux, flux2irr
     f = irr2flux if which == "irr2flux" else flux2irr
@@ -148,6 +166,8 @@ def cases(tier, seed):
     for which in ("irr2flux", "flux2irr"):
         for prefix in ("", "micro"):
             add(f"re-used wavelength buffer {which} prefix={prefix!r}", "reuse_case", n=3, prefix=prefix, which=which)
+        for first_prefix, prefix in (("micro", ""), ("", "micro"), ("milli", "nano"), (None, "milli")):
+            add(f"earlier conversion with prefix={first_prefix!r}, then {which} prefix={prefix!r}", "history_case", n=3, first_prefix=first_prefix, prefix=prefix, which=which)
     for prefix in ("", "micro"):
         for in_unit in ("I", "microI", "W/m^2/nm", "uW/cm^2/nm"):
             for lam_unit in ("plain", "nm", "um"):
